@@ -12,7 +12,7 @@ from .common import segno
 ID = 'C07'
 LEVEL = 'exploration'
 TITLE = 'Most compact applicable mode is chosen; a requested mode is honoured or refused'
-RULE = ('exhaustive over ALL byte strings of length 1..2 and length 3 over an 8-byte alphabet, and over '
+RULE = ('exhaustive over ALL byte strings of length 1..2, length 3 over an 8-byte alphabet, 4-6 byte strings made of a valid kanji/hanzi character and every class-boundary pair in every position, and over '
         'single code points (quick: class representatives and neighbours of every codec boundary; thorough: the whole BMP), each with '
         'mode=None and with each of the five requested modes, and with versions M1..M4/1 for availability; the automatic mode must be '
         'the first applicable of numeric, alphanumeric, kanji, byte per the model predicate; a requested mode must be accepted iff '
@@ -55,6 +55,9 @@ def gen_cases(tier):
     cps = list(codepoints(tier))
     for i in range(0, len(cps), 64):
         yield ('cps', cps[i:i + 64])
+    # two-character (4-byte) inputs: a valid first character followed by every class-boundary pair, and the reverse order
+    for a in BOUNDARY:
+        yield ('quads', a)
     # odd / even lengths with requested kanji / hanzi (length 0..5)
     for n in range(1, 6):
         yield ('runs', n)
@@ -164,6 +167,13 @@ def run_case(case, acc):
             d4 = d + bytes([c])
             judge(d4, d4, None, None, acc)
             judge(d4, d4, 'kanji', None, acc)
+    elif kind == 'quads':
+        for b in BOUNDARY:
+            pair = bytes([case[1], b])
+            for good, m in ((b'\xb0\xa1', 'hanzi'), (b'\x93\x5f', 'kanji'), (b'\xe0\x40', 'kanji'), (b'\xa1\xa1', 'hanzi')):
+                for d in (good + pair, pair + good, good + good + pair):
+                    judge(d, d, m, None, acc)
+                    judge(d, d, None, None, acc)
     elif kind == 'cps':
         for cp in case[1]:
             ch = chr(cp)
